@@ -40,6 +40,17 @@ def run_group_shard(params, judge_name, nontrivial_fn, sample_fn=None, force=Non
             H = group_sim.run_history(Pv)
             res["evaluations"] += 1
             cnt = res["counters"]
+            if judge_name == "judge_c06" and any(e.startswith("SimLivelock") for e in H["errors"]):
+                # a member that spins at a frozen instant neither heartbeats nor converges
+                cnt["histories_judged"] = cnt.get("histories_judged", 0) + 1
+                mech = "member_task_spins_without_waiting"
+                cnt[f"violating_histories_{mech}"] = cnt.get(f"violating_histories_{mech}", 0) + 1
+                if mech not in seen_mech:
+                    seen_mech.add(mech)
+                    res["violations"].append({"mechanism": mech, "what": H["errors"][0][:400] + f" [codec: {codec}]",
+                                              "witness": {"params": Pv, "pure_python": bool(params.get("pure_python")),
+                                                          "judge": judge_name, "detail": {"errors": H["errors"]}}})
+                continue
             if H["errors"] or H["sim_errors"]:
                 res["inconclusive"].append(f"history seed={Pv['seed']}: {H['errors'][:1]} {str(H['sim_errors'][:1])[:300]}")
                 continue
